@@ -37,5 +37,9 @@ CaseVerdict ==
        ELSE IF VerCmp(t0, out) # -1 THEN (IF f.tag # "none" /\ HasRel(PT) THEN "ok" ELSE "not-greater")      \* a tag downgrade is the gate's business (C01)
        ELSE IF IsPycalver(PT) /\ f.tag = "none" /\ LexCmp(t0, out) # -1 THEN "not-lexically-greater"
        ELSE LET back == Parse(out, PT) IN IF IsBad(back) THEN "bumped-not-accepted" ELSE RoundTrip(PT, back)
+\* the derived search patterns: whatever tag the version carries, the rendered text is found in full by its own pattern
+AllTags == {"final", "alpha", "beta", "rc", "dev", "post"}
+DerivedAccepted == lvl = 1 => \A q \in 1..Len(GenDerived), tg \in AllTags :
+                      LET st == [v EXCEPT !.tag = tg] IN ~IsBad(Parse(Render(st, GenDerived[q]), GenDerived[q]))
 LegacyConsistent == lvl >= 1 => LET c == CaseVerdict IN c = "ok" \/ (PrintT(<<"FAILED-CLAUSE", c>>) /\ FALSE)
 =============================================================================
